@@ -4,6 +4,9 @@ import LoraVerif.Props.C09
 import LoraVerif.Model.History
 import LoraVerif.Lemmas.MacWFStep
 import LoraVerif.Lemmas.Accept
+import LoraVerif.Lemmas.RefineNb
+import LoraVerif.Lemmas.HistoryCSafe
+import LoraVerif.Lemmas.DelayInv
 /-!
 # C04 — no received frame or network command can panic or hang the device
 
@@ -340,6 +343,102 @@ theorem accept_nonempty (m : MacState) (h : MacWF m) :
       ∃ v, v < 64 ∧ ∀ {τ : Type} (t : τ), ∃ res, macSend (constGen v) m data fport conf t = .ok res) :=
   ⟨macJoinOtaa_returns m h, fun data fport conf h0 hl => macSend_returns m data fport conf h h0 hl⟩
 
+/-! ## the device front-ends: no panic for every script (by refinement)
+
+`Lemmas/RefineAsync.lean` proves that a session of the async front-end model (`asyncOps`: `send` /
+`join` under ANY script of radio answers — any length, errors at any call, frames in any window and,
+in Class C, heard between the windows —, ABP activation, the setters) is simulated by the extended
+history `runC` of the events `abstractOp` reads off the scripts; `runC_safe` (the history invariant
+`MacWF`, extended to the Class C event shapes with the same per-handler lemmas) then excludes every
+panic of the MAC.  What remains are the front-end's own two arithmetic sites: the `u32` computation
+`delay + tx_ms − lead` of the window timers, which depends on the board's timing constants only. -/
+
+/-- a device that has not been used yet -/
+def asyncStart (m : MacState) : DevRun := { m := m, script := [], calls := [], downlinks := [] }
+
+/-- **no session of the async front-end panics in the MAC, whatever the radio answers**: from any
+well-formed state, for both classes, every list of valid calls and every script, a panic of
+`asyncOps` can only be the timer arithmetic `delay + tx_ms − lead` -/
+theorem async_no_panic_from {σ} (g : Rng σ) (cfg : DevCfg) (d : DevRun) (rs : σ) (ops : List AsyncOp) (h : MacWF d.m)
+    (hv : ∀ op ∈ ops, op.valid d.m.region.id = true) (site : String)
+    (hp : asyncOps g cfg d rs ops = .error (.panic site)) :
+    site = "rx start delay overflow" ∨ site = "rx start delay underflow" := by
+  rcases (asyncOps_sim g cfg d rs ops).elim_error hp with hx | hx
+  · exact hx
+  · exfalso
+    refine (runC_safe g d.m rs (ops.map (abstractOp cfg)) h ?_).no_panic site hx
+    intro ev hev
+    obtain ⟨op, hop, rfl⟩ := List.mem_map.mp hev
+    exact abstractOp_valid cfg _ op (hv op hop)
+
+/-- … in particular from the initial state of every region -/
+theorem async_no_panic {σ} (g : Rng σ) (cfg : DevCfg) (r : RegionId) (maxPower : Nat) (gain : Int) (rs : σ)
+    (ops : List AsyncOp) (hg : gainOk r gain = true) (hv : ∀ op ∈ ops, op.valid r = true) (site : String)
+    (hp : asyncOps g cfg (asyncStart (MacState.init (RegionState.init r) maxPower gain)) rs ops = .error (.panic site)) :
+    site = "rx start delay overflow" ∨ site = "rx start delay underflow" :=
+  async_no_panic_from g cfg _ rs ops (init_wf r maxPower gain hg) (by cases r <;> exact hv) site hp
+
+/-- the front-end's only remaining failure when the board's timing constants are sane: the model's
+bound on the frames heard in one `between_windows` (a hang value, not a panic) -/
+def OnlyHang : Fault → Prop
+  | .hang s => s = "between_windows"
+  | .panic _ => False
+
+/-- **no session of the async front-end panics at all, whatever the radio answers**, when the board's
+timing constants are sane (`TimingOk`: lead ≤ 1 s + time on air, 16 s + time on air fits a `u32`): from
+any well-formed state whose RX1 delay is between 1 s and 15 s — an invariant of every step
+(`stepC_delayOk`; the initial state has 1 s) — the `u32` arithmetic of the window timers cannot fail
+either, because the delays it reads are the ones in force when the frame was built (`winC_none_cfg`). -/
+theorem async_no_panic_timing_from {σ} (g : Rng σ) (cfg : DevCfg) (hT : TimingOk cfg) (d : DevRun) (rs : σ)
+    (ops : List AsyncOp) (h : MacWF d.m) (hd : DelayOk d.m) (hv : ∀ op ∈ ops, op.valid d.m.region.id = true) (site : String) :
+    asyncOps g cfg d rs ops ≠ .error (.panic site) := by
+  intro hp
+  have hsim := asyncOps_simX (X := OnlyHang) rfl g cfg DelayOk
+    (fun m s ev ms' oc hI hs => stepC_delayOk g m s ev ms' oc hI hs)
+    (fun m join second e hI he => by
+      obtain ⟨h1, h2⟩ := macRxDelay_range m hI join second
+      exact (startDelay_timingOk cfg hT _ h1 h2 e he).elim)
+    d rs ops hd
+  rcases hsim.elim_error hp with hx | hx
+  · exact hx
+  · refine (runC_safe g d.m rs (ops.map (abstractOp cfg)) h ?_).no_panic site hx
+    intro ev hev
+    obtain ⟨op, hop, rfl⟩ := List.mem_map.mp hev
+    exact abstractOp_valid cfg _ op (hv op hop)
+
+/-- … in particular from the initial state of every region -/
+theorem async_no_panic_timing {σ} (g : Rng σ) (cfg : DevCfg) (hT : TimingOk cfg) (r : RegionId) (maxPower : Nat) (gain : Int)
+    (rs : σ) (ops : List AsyncOp) (hg : gainOk r gain = true) (hv : ∀ op ∈ ops, op.valid r = true) (site : String) :
+    asyncOps g cfg (asyncStart (MacState.init (RegionState.init r) maxPower gain)) rs ops ≠ .error (.panic site) :=
+  async_no_panic_timing_from g cfg hT _ rs ops (init_wf r maxPower gain hg) (init_delayOk _ _ _) (by cases r <;> exact hv) site
+
+/-- every state a session reaches is well-formed again (so the next call cannot panic either) -/
+theorem async_wf {σ} (g : Rng σ) (cfg : DevCfg) (d d' : DevRun) (rs rs' : σ) (ops : List AsyncOp) (obs : List OpObs)
+    (h : MacWF d.m) (hv : ∀ op ∈ ops, op.valid d.m.region.id = true)
+    (hr : asyncOps g cfg d rs ops = .ok (obs, d', rs')) : MacWF d'.m := by
+  obtain ⟨⟨ms', ocs⟩, hrun, hrel⟩ := (asyncOps_sim g cfg d rs ops).elim_ok hr
+  have hk := (runC_safe g d.m rs (ops.map (abstractOp cfg)) h (by
+    intro ev hev
+    obtain ⟨op, hop, rfl⟩ := List.mem_map.mp hev
+    exact abstractOp_valid cfg _ op (hv op hop))).elim hrun
+  have := hrel.m
+  simp only at this
+  rw [this]; exact hk.1
+
+/-- **no event sequence of the non-blocking front-end panics in the MAC.**  From `Idle` in any
+well-formed MAC state, for every sequence of application / radio / timer events (valid `send` payloads,
+well-formed decoded views) with ANY radio answers: a panic of `nbRun` can only be one of the state
+machine's own — the `i32` / `u32` arithmetic on the radio's timestamps and the window times, or the
+`panic!` of `SendingData` on a radio that answers a pending transmission with anything but `TxDone`.
+Every MAC call the state machine makes is the prefix of a `History.step` (`nbStep_fault`), which
+cannot panic (`step_safe`). -/
+theorem nb_no_panic {σ} (g : Rng σ) (cfg : NbCfg) (r : NbRun) (rs : σ) (evs : List (NbEvent × List NbItem))
+    (hidle : r.st = .idle) (h : MacWF r.m) (hv : ∀ x ∈ evs, x.1.valid = true) (site : String)
+    (hp : nbRun g cfg r rs evs = .error (.panic site)) :
+    site = "t1 i32 overflow" ∨ site = "u32 add overflow" ∨ site = "u32 sub underflow" ∨
+      site = "SendingData: Unexpected radio response" :=
+  nbRun_fault g cfg (r.m, rs) none r rs evs site (nbInv_idle g r rs hidle) h rfl hv hp
+
 /-! non-vacuity -/
 example : ∃ r, channelMaskUpdate (RegionState.init .US915) Mask.default 4 0xAB 0xFF = .ok r := channelMaskUpdate_ok _ _ _ _ _ (by decide) |>.imp (fun _ h => h.1)
 example : (channelMaskUpdate (RegionState.init .EU868) Mask.default 4 1 2).toOption = some none := by decide
@@ -368,6 +467,44 @@ def demoHistory : List Ev :=
 example : ∀ ev ∈ demoHistory, validEv .EU868 ev = true := by decide +kernel
 example : (run lcg (MacState.init (RegionState.init .EU868) 14 2, 1) demoHistory).toOption.map (fun r => r.2.length) = some 7 := by decide +kernel
 
+/-- a Class C session on the async front-end: OTAA join (JoinAccept in RX1), a confirmed uplink during
+which a Class C downlink is heard between TX and RX1 and the RX1 frame carries MAC commands, an uplink
+whose RX2 set-up fails, an uplink with garbage in both windows -/
+def demoOps : List AsyncOp :=
+  [ .join [.ok, .ok, .ok, .ok, .frame 5 (.joinAccept { micOk := true, devAddr := 1, dlSettings := 0x2F, rxDelay := 0, nwkKey := 3, appKey := 4, cfList := some (.dynamicChannel [867100000, 867300000, 0, 1, 867900000]) })],
+    .send [1, 2, 3] 1 true [.ok, .ok, .frame 2 (.data { len := 14, confirmed := false, fcnt16 := 1, micFcnt := some 1, fopts := [], fport := some 9, payload := [7] }), .ok, .ok, .frame (-3) demoDownlink],
+    .send [] 0 false [.ok, .ok, .ok, .ok, .ok, .ok, .ok, .ok, .err],
+    .setDr 3,
+    .send [9] 2 false [.ok, .ok, .ok, .ok, .frame 0 .garbage, .ok, .ok, .ok, .ok, .frame 0 .garbage] ]
+
+def demoCfg : DevCfg := { lead := 15, buffer := 40, classC := true, txMs := 57 }
+
+example : ∀ op ∈ demoOps, op.valid .EU868 = true := by decide +kernel
+example : TimingOk demoCfg := by unfold TimingOk demoCfg; decide
+example : (asyncOps lcg demoCfg (asyncStart (MacState.init (RegionState.init .EU868) 14 2)) 1 demoOps).toOption.map
+    (fun r => (r.1.map (fun ob => ob.res), r.2.1.downlinks)) =
+    some ([some (.ok .joinSuccess), some (.ok (.downlinkReceived 7)), some .errRadio, none, some (.ok .rxComplete)],
+      [(1, [1, 2, 3]), (9, [7])]) := by decide +kernel
+
+/-- the same exchange pattern on the non-blocking front-end (started from an ABP session): `TxDone`
+through a radio event, a stray frame and an accepted one in RX1; then a send refused while busy,
+an exchange running into the RX2 timeout with a radio error on the way -/
+def demoNb : List (NbEvent × List NbItem) :=
+  [ (.send [1] 1 true, []), (.send [2] 1 false, []), (.radio (.txDone 100), []), (.timeout, []),
+    (.radio (.rx 0 .garbage), []), (.radio (.rx (-3) demoDownlink), []),
+    (.send [2] 1 false, [.txDoneNow 5000]), (.join, []), (.timeout, [.err]), (.timeout, []), (.timeout, []), (.timeout, []),
+    (.timeout, []) ]
+
+def demoNbStart : NbRun :=
+  { m := macJoinAbp (MacState.init (RegionState.init .EU868) 14 2) 7 1 2, st := .idle, script := [], calls := [], downlinks := [] }
+
+example : MacWF demoNbStart.m := by decide +kernel
+example : ∀ x ∈ demoNb, x.1.valid = true := by decide +kernel
+example : (nbRun lcg { offset := -20, duration := 200 } demoNbStart 1 demoNb).toOption.map (fun r => (r.1, r.2.1.st)) =
+    some ([.uplinkSending 0, .errState "TxRequestDuringTx", .timeoutRequest 1080, .timeoutRequest 1280, .mac .noUpdate,
+        .mac (.downlinkReceived 7), .timeoutRequest 5980, .errState "NewSessionWhileWaitingForRxWindow", .errRadio,
+        .timeoutRequest 6180, .timeoutRequest 6980, .timeoutRequest 7180, .mac .rxComplete], .idle) := by decide +kernel
+
 end C04
 
 #print axioms C04.init_wf
@@ -390,3 +527,9 @@ end C04
 #print axioms C04.fixedMaskLoop_no_panic
 #print axioms C04.init_dynWF
 #print axioms C04.usable_ok
+#print axioms C04.async_no_panic_from
+#print axioms C04.async_no_panic
+#print axioms C04.async_wf
+#print axioms C04.async_no_panic_timing_from
+#print axioms C04.async_no_panic_timing
+#print axioms C04.nb_no_panic
